@@ -358,7 +358,9 @@ class ExternalVariableCollector(NodeVisitor):
         self.funcnames = set()
         self.ann_used = set()
         self.visit(tree)
-        self.used -= self.funcnames
+        # A function may use its own name (recursion), which is then a
+        # variable like any other
+        self.used -= self.funcnames - {getattr(tree, "name", None)}
         self.ann_used -= self.used | self.funcnames
 
     def visit_FunctionDef(self, node):
@@ -406,7 +408,10 @@ class ExternalVariableCollector(NodeVisitor):
         self.used |= _NestedScopeReads(node).reads
 
     def visit_ClassDef(self, node):
-        self.provenance[node.name] = "body"
+        # As for an assignment, a parameter, closure variable or declared
+        # global that is rebound by a class, except or import statement
+        # keeps its provenance
+        self.provenance.setdefault(node.name, "body")
         self.assigned.add(node.name)
         # The body of the class is a separate scope
         for expr in [*node.decorator_list, *node.bases, *node.keywords]:
@@ -429,7 +434,7 @@ class ExternalVariableCollector(NodeVisitor):
 
     def visit_ExceptHandler(self, node):
         if node.name is not None:
-            self.provenance[node.name] = "body"
+            self.provenance.setdefault(node.name, "body")
             self.assigned.add(node.name)
         self.generic_visit(node)
 
@@ -440,7 +445,7 @@ class ExternalVariableCollector(NodeVisitor):
         for alias in node.names:
             name = alias.asname or alias.name
             name = name.split(".")[0]
-            self.provenance[name] = "body"
+            self.provenance.setdefault(name, "body")
             self.assigned.add(name)
 
     def _visit_capture_pattern(self, node, name):
